@@ -67,6 +67,57 @@ def load(repo):
             "places": places, "term_kinds": term_kinds, "lits": sorted(lits)}
 
 
+def covering_sentences(d, repo):
+    """deterministic covering set: for every alternative of every rule of the must-grammar one small sentence that uses it
+    (each verified by the Earley recogniser to be a sentence of the must-grammar).  Returns list of (nt, alt index, text)."""
+    import random
+    import t_lextables
+    lt = t_lextables.parse(repo)
+    bang_sp = {v: k for k, v in lt["bang"]}
+    T = d["T"]
+
+    def lex_term(t, rng):
+        if t == "INT":
+            return ("IntVal", "1")
+        if t == "ID":
+            return ("Id", rng.choice(["a", "b", "X"]))
+        if t == "STRING":
+            return ("StrVal", '"s"')
+        if t == "CODE":
+            return ("CodeFragment", "[{ c }]")
+        if t == "VARNAME":
+            return ("VarName", "$x")
+        if t == "BANGOP":
+            return ("XAdd", "!add") if "XAdd" in bang_sp else (d["tok"]["bang"][0], "!" + bang_sp[d["tok"]["bang"][0]])
+        if t == "CONDOP":
+            return ("XCond", "!cond")
+        if t == "@IntVal":
+            return ("IntVal", "3")
+        if t == "@BinaryIntVal":
+            return ("BinaryIntVal", "0b1")
+        if t.startswith("@X") and t[1:] in bang_sp:
+            return (t[1:], "!" + bang_sp[t[1:]])
+        raise TranslateError("no lexeme for terminal %s" % t)
+    rules = d["must"]
+    cfg = D.CFG(rules, "SourceFile", lambda s_: T[s_], d["term_kinds"])
+    rng = random.Random(4)
+    gen = D.SentenceGen(rules, rng, lambda s_: (T[s_], s_), lex_term)
+    out = []
+    for nt in sorted(rules):
+        r = rules[nt]
+        alts = r[1] if r[0] == "alt" else [r]
+        for i in range(len(alts)):
+            best = None
+            for b in (6, 6, 10, 14):
+                s_ = gen.gen("SourceFile", b, force=(nt, i))
+                if (nt, i) in gen.used and len(s_) <= 40 and cfg.recognise([k for k, _ in s_]):
+                    if best is None or len(s_) < len(best):
+                        best = s_
+            if best is not None:
+                out.append((nt, i, " ".join(x for _, x in best)))
+    return out
+
+
 def translate(repo):
     d = load(repo)
     names = list(d["doc"]["order"])
@@ -139,6 +190,16 @@ def translate(repo):
     o.append("(* every quoted literal of the documents with the token kind the T! macro gives it *)")
     o.append("Definition doc_literals : list (list N * TokenKind) :=\n  [ %s ].\n" % "\n  ; ".join(
         "(%s, T_%s)" % (coq_str_codes(l), d["T"][l]) for l in d["lits"]))
+    cov = covering_sentences(d, repo)
+    seen = set()
+    rows = []
+    for nt, i, text in cov:
+        if text not in seen:
+            seen.add(text)
+            rows.append((nt, i, text))
+    o.append("(* a covering set of sentences of doc_rules_must: one per alternative of every rule that the generator reached *)")
+    o.append("Definition doc_cover_sentences : list (list N) :=\n  [ %s ].\n" % "\n  ; ".join(
+        "%s (* %s/%d: %s *)" % (coq_str_codes(t), nt, i, t.replace("*)", "* )").replace("(*", "( *").replace('"', "'")) for nt, i, t in rows))
     o.append("Definition doc_delta_keys : list string :=\n  [ %s ].\n" % "; ".join(coq_string_lit(x["key"]) for x in CD.ACCEPT + CD.REJECT))
     return {"GenDocGrammar.v": "\n".join(o)}
 
